@@ -96,6 +96,10 @@ if os.environ.get("LSPROTOCOL_VERIF_SIM") == "1" and os.environ.get("LSPV_CONF")
         if fake:
             if "cpu_count" in fake:
                 os.cpu_count = lambda: fake["cpu_count"]
+                if hasattr(os, "sched_getaffinity"):
+                    os.sched_getaffinity = lambda pid=0: set(range(fake["cpu_count"]))
+                if hasattr(os, "process_cpu_count"):
+                    os.process_cpu_count = lambda: fake["cpu_count"]
                 try:
                     import multiprocessing as _mp
 
